@@ -477,6 +477,240 @@ def enum_offsets(tier: str):
         yield dict(base, cut=NO_CUT)
 
 
+# ----------------------------------------------------------------------------------------------
+# layer "client-default": the high-level clients built with ssl=True create their own default context and promise to
+# clear OP_IGNORE_UNEXPECTED_EOF on it.  On this image ssl.create_default_context() leaves the option off, which would
+# make the promise unobservable, so the harness substitutes a create_default_context() that (a) trusts the test CA and
+# (b) has the option SET (as a distribution-patched or future stdlib may).  The client must then still report a
+# truncated stream as an error in standard-compatible mode.
+
+
+class _patched_default_context:
+    def __init__(self, version: str) -> None:
+        self.version = version
+
+    def __enter__(self) -> None:
+        import os
+        import ssl
+
+        self.real = ssl.create_default_context
+        version = self.version
+
+        def create_default_context(*args: Any, **kwargs: Any) -> ssl.SSLContext:
+            ctx = self.real(*args, **kwargs)
+            ctx.load_verify_locations(os.path.join(tlspeer.CERTS, "ca.pem"))
+            tlspeer._pin(ctx, version)
+            ctx.options |= ssl.OP_IGNORE_UNEXPECTED_EOF
+            return ctx
+
+        ssl.create_default_context = create_default_context  # type: ignore[assignment]
+
+    def __exit__(self, *a: Any) -> None:
+        import ssl
+
+        ssl.create_default_context = self.real  # type: ignore[assignment]
+
+
+def _client_protocol() -> Any:
+    from easynetwork.protocol import StreamProtocol
+    from easynetwork.serializers.line import StringLineSerializer
+
+    return StreamProtocol(StringLineSerializer("LF"))
+
+
+def _client_lines(case: dict) -> list[bytes]:
+    return [(f"line-{i}-" + "x" * n).encode() + b"\n" for i, n in enumerate(case["lines"])]
+
+
+def _classify_client_end(exc: BaseException) -> tuple[str, str]:
+    """The clients turn both a clean end-of-stream and an SSL EOF error into ConnectionAbortedError(ECONNABORTED) `from`
+    the original; the original (the __cause__ chain) is what tells them apart at this level."""
+    import ssl
+
+    chain: list[BaseException] = []
+    e: BaseException | None = exc
+    while e is not None and e not in chain:
+        chain.append(e)
+        e = e.__cause__ or e.__context__
+    for e in chain:
+        if isinstance(e, ssl.SSLError):
+            return "error", type(e).__name__
+    for e in chain:
+        if isinstance(e, ConnectionAbortedError) and "end-of-stream" in str(e):
+            return "eof", type(e).__name__
+    if isinstance(exc, OSError):
+        return "error", type(exc).__name__
+    raise exc
+
+
+async def _async_client_session(case: dict) -> dict:
+    from easynetwork.clients.async_tcp import AsyncTCPNetworkClient
+
+    from ..memtransports import MemStreamTransport, VerifBackend
+
+    backend = VerifBackend()
+    mem = MemStreamTransport(backend)
+    backend.connect_transports.append(mem)
+    peer = tlspeer.TLSPeer("server", case["version"])
+    wire = tlsharness.Wire(mem, peer, case.get("frag_to_sut", []), [1 << 20], [0.0])
+    wire.auto_close_reply = True
+    lines = _client_lines(case)
+    for ln in lines:
+        peer.write(ln)
+    if case["peer_closes"]:
+        peer.close()
+    else:
+        wire.eof_when_drained = True
+    conductor = asyncio.create_task(wire.conductor())
+    res: dict[str, Any] = {"packets": [], "end": None, "error": None, "phase": "connect"}
+    kwargs: dict[str, Any] = {}
+    if case["std"] is not None:
+        kwargs["ssl_standard_compatible"] = case["std"]
+    try:
+        client = AsyncTCPNetworkClient(
+            ("localhost", 4433),
+            _client_protocol(),
+            backend,
+            ssl=True,
+            server_hostname=case["hostname"],
+            ssl_handshake_timeout=1e7,
+            ssl_shutdown_timeout=1e7,
+            **kwargs,
+        )
+        try:
+            try:
+                await client.wait_connected()
+            except OSError as exc:
+                res["end"], res["error"] = "connect-error", type(exc).__name__
+                return res
+            res["phase"] = "data"
+            while True:
+                try:
+                    pkt = await client.recv_packet()
+                except OSError as exc:
+                    res["end"], res["error"] = _classify_client_end(exc)
+                    break
+                res["packets"].append(pkt)
+                if len(res["packets"]) > len(lines) + 5:
+                    raise HarnessError("client reader loop does not end")
+        finally:
+            await client.aclose()
+    finally:
+        wire.stop = True
+        wire.kick()
+        conductor.cancel()
+        await asyncio.gather(conductor, return_exceptions=True)
+        res["peer_done"] = peer.close_sent and not peer.to_write and not wire.to_sut
+    return res
+
+
+def _sync_client_session(case: dict) -> dict:
+    from easynetwork.clients.tcp import TCPNetworkClient
+
+    from ..synctls import TLSPipe, selector_factory_for
+    from ..syncworld import HarnessHang, SpinGuard, World, virtual_clock
+    from .c11 import _patched_default_selector
+
+    world = World()
+    peer = tlspeer.TLSPeer("server", case["version"])
+    pipe = TLSPipe(world, peer, case.get("frag_to_sut", []), tcp=True)
+    lines = _client_lines(case)
+    for ln in lines:
+        peer.write(ln)
+    if case["peer_closes"]:
+        peer.close()
+    else:
+        pipe.eof_when_drained = True
+    res: dict[str, Any] = {"packets": [], "end": None, "error": None, "phase": "connect"}
+    kwargs: dict[str, Any] = {}
+    if case["std"] is not None:
+        kwargs["ssl_standard_compatible"] = case["std"]
+    try:
+        with virtual_clock(world), _patched_default_selector(selector_factory_for(pipe)):
+            try:
+                try:
+                    client = TCPNetworkClient(
+                        pipe.sut_sock,
+                        _client_protocol(),
+                        ssl=True,
+                        server_hostname=case["hostname"],
+                        ssl_handshake_timeout=1e7,
+                        ssl_shutdown_timeout=5.0,
+                        **kwargs,
+                    )
+                except OSError as exc:
+                    res["end"], res["error"] = "connect-error", type(exc).__name__
+                    return res
+                res["phase"] = "data"
+                try:
+                    while True:
+                        try:
+                            pkt = client.recv_packet(timeout=None)
+                        except OSError as exc:
+                            res["end"], res["error"] = _classify_client_end(exc)
+                            break
+                        res["packets"].append(pkt)
+                        if len(res["packets"]) > len(lines) + 5:
+                            raise HarnessError("client reader loop does not end")
+                finally:
+                    client.close()
+            except HarnessHang as exc:
+                raise Violation("deadlock", f"blocking TLS client hangs: {exc}") from exc
+            except SpinGuard as exc:
+                raise Violation("deadlock", f"blocking TLS client spins: {exc}") from exc
+        return res
+    finally:
+        res["peer_done"] = peer.close_sent and not peer.to_write and not pipe.to_sut
+        pipe.close()
+
+
+def run_client_default_case(case: dict) -> Outcome:
+    with _patched_default_context(case["version"]):
+        if case["kind"] == "async":
+            try:
+                r = run_virtual(_async_client_session, case)
+            except Deadlock as exc:
+                raise Violation("deadlock", f"client session did not end: {exc}") from exc
+        else:
+            r = _sync_client_session(case)
+    std = True if case["std"] is None else case["std"]
+    expected = [ln[:-1].decode() for ln in _client_lines(case)]
+    detail = {"client": case["kind"], "std": case["std"], "hostname": case["hostname"], "end": r["end"], "error": r["error"]}
+    if r["end"] == "connect-error":
+        raise Violation("spurious-error", f"TLS client with its default context cannot connect: {r['error']}", **detail)
+    if r["packets"] != expected[: len(r["packets"])]:
+        raise Violation("data-mismatch", "client delivered packets the peer did not send", **detail)
+    if case["peer_closes"]:
+        if r["end"] != "eof" or r["packets"] != expected:
+            raise Violation("spurious-error", f"peer closed with close_notify, client reported {r['end']}/{r['error']} after {len(r['packets'])} packets", **detail)
+    elif std:
+        if r["end"] == "eof":
+            raise Violation(
+                "truncation-as-eof",
+                "connection ended without close_notify; a client built with ssl=True (own default context, standard-compatible) "
+                "reported a clean end-of-stream: its default context kept OP_IGNORE_UNEXPECTED_EOF",
+                **detail,
+            )
+    else:
+        if r["end"] != "eof":
+            raise Violation("abrupt-end-not-eof", f"ssl_standard_compatible=False: abrupt end reported as {r['error']}", **detail)
+    classes = (f"client-{case['kind']}", f"std-{case['std']}", "truncated" if not case["peer_closes"] else "complete", f"end-{r['end']}", f"hostname-{case['hostname']!r}")
+    return Outcome(nontrivial=not case["peer_closes"], classes=classes, note=f"end={r['end']} error={r['error']} packets={len(r['packets'])}")
+
+
+@st.composite
+def st_client_default_case(draw: st.DrawFn, tier: str) -> dict:
+    return {
+        "kind": draw(st.sampled_from(["async", "sync"])),
+        "version": draw(st.sampled_from(["1.2", "1.3"])),
+        "std": draw(st.sampled_from([None, None, True, False])),
+        "hostname": draw(st.sampled_from(["localhost", "localhost", ""])),
+        "lines": draw(st.lists(st.sampled_from([0, 3, 200, 5000]), min_size=0, max_size=3)),
+        "peer_closes": draw(st.sampled_from([False, False, True])),
+        "frag_to_sut": draw(st.one_of(st.just([1 << 20]), st.lists(st.sampled_from([7, 100, 5000]), min_size=1, max_size=3))),
+    }
+
+
 CHECK = Check(
     id="C09",
     level="fault_enumeration",
@@ -485,7 +719,9 @@ CHECK = Check(
         "at byte offset c and the connection then ends; enumerated: every record boundary +-1 plus a stride (quick) / every "
         "offset (thorough) for 8-10 fixed session shapes (role x TLS version x standard_compatible), plus Hypothesis-drawn "
         "shapes/offsets/fragmentations; non-trivial = cut strictly inside a TLS record (parsed from the record headers of "
-        "the live stream) incl. inside the close_notify; distinct = sha1(case)"
+        "the live stream) incl. inside the close_notify; layer client-default: high-level TCP clients built with ssl=True "
+        "under a substituted create_default_context() that sets OP_IGNORE_UNEXPECTED_EOF, non-trivial = session ended "
+        "without close_notify; distinct = sha1(case)"
     ),
     layers=[
         Layer("async-enum", None, run_async_case, {"quick": 0, "thorough": 0}, enumerate=enum_offsets),
@@ -493,6 +729,7 @@ CHECK = Check(
         Layer("sync-enum", None, run_sync_case, {"quick": 0, "thorough": 0}, enumerate=enum_offsets),
         Layer("sync", st_async_case, run_sync_case, {"quick": 600, "thorough": 3000}),
         Layer("concurrent-close", st_concurrent_close_case, run_concurrent_close_case, {"quick": 200, "thorough": 1500}),
+        Layer("client-default", st_client_default_case, run_client_default_case, {"quick": 150, "thorough": 1000}),
     ],
     assumptions=[
         "peer is the stdlib ssl.SSLObject; the live stream differs from run to run in content but not in record structure except for ECDSA signature length (so enumerated offsets beyond the end mean 'not truncated', decided per run from the live stream)",
